@@ -396,7 +396,8 @@ static int rdy_slot(const void *ctx)
     return free_i;
 }
 
-static void vsim_probe_reset(void) { memset(g_rdy, 0, sizeof g_rdy); g_probe_seq = 0; g_sign_node_reset(); }
+extern void vsim_hs_skip(int node, int hs_type, int count);
+static void vsim_probe_reset(void) { memset(g_rdy, 0, sizeof g_rdy); g_probe_seq = 0; g_sign_node_reset(); vsim_hs_skip(-1, -1, 0); }
 int32_t __real_psAesInitGCM(void *ctx, const unsigned char *key, uint8_t keylen);
 int32_t __wrap_psAesInitGCM(void *ctx, const unsigned char *key, uint8_t keylen)
 {
@@ -578,4 +579,15 @@ void vsim_block_owner(const vsim_block_info_t *b, char *out, size_t n)
         for (int g = 0; GENERIC[g]; g++) { if (!strcmp(name, GENERIC[g])) { generic = 1; break; } }
         if (!generic) { snprintf(out, n, "%s", name); return; }
     }
+}
+
+/* ------------------------------------------------------------------ byzantine peer: skip handshake messages (guarded hook) */
+static int g_skip_node = -1, g_skip_type = -1, g_skip_count = 0; static uint64_t g_skipped;
+void vsim_hs_skip(int node, int hs_type, int count) { g_skip_node = node; g_skip_type = hs_type; g_skip_count = count; if (node < 0) { g_skipped = 0; } }
+uint64_t vsim_hs_skipped(void) { return g_skipped; }
+int psVerifHsSkip(const void *ssl, int hsType)
+{
+    (void) ssl;
+    if (g_skip_node == t_node && g_skip_type == hsType && g_skip_count > 0) { g_skip_count--; g_skipped++; return 1; }
+    return 0;
 }
